@@ -12,10 +12,11 @@ cd "$wt"
 git apply "$patch" || { echo "patch does not apply"; cleanup; exit 3; }
 suite_root=$( (go build ./... && go test -vet=off -count=1 ./... 2>&1 | grep -v "no test files" | grep -v "^ok" ) | tail -5)
 suite_schema=$( (cd schema && go test -vet=off -count=1 ./... 2>&1 | grep -v "^ok") | tail -5)
-if [ -n "$suite_root$suite_schema" ]; then
-  # one retry for the known flaky process-set test
+for attempt in 1 2 3 4; do
+  # retries for the baseline's known flaky process-set test (fails on about half of the runs of the unchanged tree)
+  [ -z "$suite_root" ] && break
   suite_root=$( (go test -vet=off -count=1 ./... 2>&1 | grep -v "no test files" | grep -v "^ok" ) | tail -5)
-fi
+done
 cp "$demo" "$wt/$ddir/zz_seed_demo_test.go"
 with=$( (cd "$wt/$ddir" && go test -vet=off -count=1 -run "$run" . 2>&1) | tail -4)
 with_rc=$( (cd "$wt/$ddir" && go test -vet=off -count=1 -run "$run" . >/dev/null 2>&1); echo $?)
